@@ -16,8 +16,10 @@ package vsched
 
 import (
 	"fmt"
+	"reflect"
 	"runtime/debug"
 	"strings"
+	"sync"
 )
 
 type abortT struct{}
@@ -93,10 +95,22 @@ func (s *Sched) me() *thread {
 }
 
 // Go starts a new controlled thread.
-func Go(f func()) { cur().spawn("", f) }
+func Go(f func()) {
+	if Free {
+		freeGo(f)
+		return
+	}
+	cur().spawn("", f)
+}
 
 // GoNamed starts a new controlled thread with a name for traces.
-func GoNamed(name string, f func()) { cur().spawn(name, f) }
+func GoNamed(name string, f func()) {
+	if Free {
+		freeGo(f)
+		return
+	}
+	cur().spawn(name, f)
+}
 
 func (s *Sched) spawn(name string, f func()) {
 	t := &thread{id: len(s.threads), name: name, resume: make(chan struct{})}
@@ -133,13 +147,23 @@ func trimStack(st string) string {
 
 // Yield is a pure scheduling point.
 func Yield() {
+	if Free {
+		freeYield()
+		return
+	}
 	s := cur()
 	s.park(s.me(), &op{desc: "yield", alts: func() []int { return []int{0} }, do: func(int) {}})
 }
 
 // Invariant registers a predicate evaluated after every step; a non-empty
 // result is recorded as the execution's invariant failure.
-func Invariant(f func() string) { s := cur(); s.invs = append(s.invs, f) }
+func Invariant(f func() string) {
+	if Free {
+		return
+	}
+	s := cur()
+	s.invs = append(s.invs, f)
+}
 
 // HarnessError flags misuse the model does not support (never a violation).
 func (s *Sched) harnessError(msg string) {
@@ -158,10 +182,15 @@ type Chan[T any] struct {
 	buf    []T
 	cap    int
 	closed bool
+	ch     chan T // free-running mode only
+	once   sync.Once
 }
 
 // Make is make(chan T, n).
 func Make[T any](n int) *Chan[T] {
+	if Free {
+		return &Chan[T]{ch: make(chan T, n), cap: n}
+	}
 	s := cur()
 	s.nextID++
 	return &Chan[T]{s: s, id: s.nextID, cap: n}
@@ -170,7 +199,12 @@ func Make[T any](n int) *Chan[T] {
 func (c *Chan[T]) String() string { return fmt.Sprintf("ch%d", c.id) }
 
 // Len is the number of buffered elements (harness observation only).
-func (c *Chan[T]) Len() int { return len(c.buf) }
+func (c *Chan[T]) Len() int {
+	if Free {
+		return len(c.ch)
+	}
+	return len(c.buf)
+}
 
 func (c *Chan[T]) canSend() bool { return c.closed || len(c.buf) < c.cap }
 func (c *Chan[T]) canRecv() bool { return c.closed || len(c.buf) > 0 }
@@ -196,6 +230,13 @@ func (c *Chan[T]) doRecv() (v T, ok bool) {
 
 // Send is c <- v.
 func (c *Chan[T]) Send(v T) {
+	if Free {
+		if c == nil {
+			select {}
+		}
+		c.ch <- v
+		return
+	}
 	if c == nil {
 		s := cur()
 		s.park(s.me(), &op{desc: "send(nil)", alts: func() []int { return nil }, do: func(int) {}})
@@ -223,6 +264,13 @@ func (c *Chan[T]) Recv() T { v, _ := c.Recv2(); return v }
 
 // Recv2 is v, ok := <-c.
 func (c *Chan[T]) Recv2() (v T, ok bool) {
+	if Free {
+		if c == nil {
+			select {}
+		}
+		v, ok = <-c.ch
+		return
+	}
 	if c == nil {
 		s := cur()
 		s.park(s.me(), &op{desc: "recv(nil)", alts: func() []int { return nil }, do: func(int) {}})
@@ -244,6 +292,10 @@ func (c *Chan[T]) Close() {
 	if c == nil {
 		panic("close of nil channel")
 	}
+	if Free {
+		close(c.ch)
+		return
+	}
 	var pm string
 	c.s.park(c.s.me(), &op{desc: "close(" + c.String() + ")",
 		alts: func() []int { return []int{0} },
@@ -260,17 +312,30 @@ func (c *Chan[T]) Close() {
 
 // CloseNow closes c as part of the caller's current atomic step (no
 // scheduling point); used by shims that model a larger atomic operation.
-func (c *Chan[T]) CloseNow() { c.closed = true }
+func (c *Chan[T]) CloseNow() {
+	if Free {
+		c.once.Do(func() { close(c.ch) })
+		return
+	}
+	c.closed = true
+}
 
 // Case is one communication clause of a select.
 type Case struct {
 	ready func() bool
 	do    func() string
 	desc  string
+	rc    reflect.SelectCase // free-running mode only
 }
 
 // RecvCase is `case <-c:`.
 func (c *Chan[T]) RecvCase() Case {
+	if Free {
+		if c == nil {
+			return Case{rc: reflect.SelectCase{Dir: reflect.SelectRecv}}
+		}
+		return Case{rc: reflect.SelectCase{Dir: reflect.SelectRecv, Chan: reflect.ValueOf(c.ch)}}
+	}
 	if c == nil {
 		return Case{ready: func() bool { return false }, do: func() string { return "" }, desc: "recv(nil)"}
 	}
@@ -279,6 +344,12 @@ func (c *Chan[T]) RecvCase() Case {
 
 // SendCase is `case c <- v:`.
 func (c *Chan[T]) SendCase(v T) Case {
+	if Free {
+		if c == nil {
+			return Case{rc: reflect.SelectCase{Dir: reflect.SelectSend}}
+		}
+		return Case{rc: reflect.SelectCase{Dir: reflect.SelectSend, Chan: reflect.ValueOf(c.ch), Send: reflect.ValueOf(v)}}
+	}
 	if c == nil {
 		return Case{ready: func() bool { return false }, do: func() string { return "" }, desc: "send(nil)"}
 	}
@@ -292,6 +363,9 @@ func (c *Chan[T]) SendCase(v T) Case {
 // taken, or -1 for the default clause. Which of several ready clauses is
 // taken is an explicit choice point of the exploration.
 func Select(hasDefault bool, cases ...Case) int {
+	if Free {
+		return freeSelect(hasDefault, cases)
+	}
 	s := cur()
 	var pm string
 	var ds []string
@@ -331,10 +405,15 @@ func Select(hasDefault bool, cases ...Case) int {
 type Lockable struct {
 	held bool
 	name string
+	mu   sync.Mutex // free-running mode only
 }
 
 // Acquire blocks until the lock is free.
 func (l *Lockable) Acquire(desc string) {
+	if Free {
+		l.mu.Lock()
+		return
+	}
 	s := cur()
 	s.park(s.me(), &op{desc: desc,
 		alts: func() []int {
@@ -348,6 +427,10 @@ func (l *Lockable) Acquire(desc string) {
 
 // Release frees the lock (a scheduling point precedes it).
 func (l *Lockable) Release(desc string) {
+	if Free {
+		l.mu.Unlock()
+		return
+	}
 	s := cur()
 	var pm string
 	s.park(s.me(), &op{desc: desc, alts: func() []int { return []int{0} },
@@ -364,6 +447,9 @@ func (l *Lockable) Release(desc string) {
 
 // WaitUntil blocks until cond holds.
 func WaitUntil(desc string, cond func() bool) {
+	if Free {
+		panic("vsched.WaitUntil is not available in free-running mode")
+	}
 	s := cur()
 	s.park(s.me(), &op{desc: desc,
 		alts: func() []int {
